@@ -412,3 +412,5 @@ HARNESSES["c07_fti_2_3_3_1"]["cap"] = 900
 # thorough caps equal to the longest validated attempt (these did not terminate within it)
 for _n, _c in {'c16_vec_process': 1800, 'c16_vec_process_partial': 1800, 'c17_real_new_20': 600, 'c07_fti_2_3_1_1': 1200}.items():
     HARNESSES[_n]["thorough_cap"] = _c
+
+HARNESSES["c17_fft_3calls"]["mem"] = 10   # CBMC was killed at the 17.5 GB address-space limit of a 7 GB allowance
